@@ -1,10 +1,10 @@
 CONSTANTS
-  W = 6
+  W = 8
   Th <- ThPw
   Dl <- DlPw
   TMax = 13
-  NMax = 6
-  Exps = {4}
+  NMax = 5
+  Exps = {5}
 SPECIFICATION Spec
 CONSTRAINT Bound
 PROPERTY L1Action
